@@ -61,7 +61,7 @@ PROPS = {
                      "objects (any multiset and order of the six matchers, operands derived from the paths by 9 transformations, caseInsensitive absent/true/false/"
                      "repeated/first/last, unknown names, mistyped operands, 12 and 14 matchers); every rule is used for get and for fetch (states and methods), "
                      "followed by a change and by re-use of the same fetch id; selections and events are compared with an independent matcher. "
-                     "Non-trivial = at least one well-formed rule selects a proper non-empty subset of the paths; every scenario holds complete routed exchanges and ends with a census by a fresh subscriber (every reported element has a shape some add/change asked for); distinct = scenario hash."),
+                     "near misses of every matcher name and of the option key; Non-trivial = at least one well-formed rule selects a proper non-empty subset of the paths; every scenario holds complete routed exchanges and ends with a census by a fresh subscriber (every reported element has a shape some add/change asked for); distinct = scenario hash."),
     "C02": scen("c02", ["default", "default", "default", "tiny"],
                 quick=dict(cases=1500, size=60), thorough=dict(cases=40000, size=100, budget_s=1500),
                 rule="rapidcheck-generated request objects of 26 shapes (every dispatcher method, unknown/empty/non-string methods, missing, mistyped and "
@@ -97,7 +97,7 @@ PROPS = {
                      "injected failures of fcntl/setsockopt/getsockname/epoll_ctl/timerfd_create/timerfd_settime, ended by closing all connections or by "
                      "SIGTERM with connections open; oracles: accounted heap, peer count, open descriptors, armed timers and live blocks equal the idle "
                      "baseline after close-all, nothing open/allocated after exit, exit status 0, descriptor-hygiene monitor silent, sanitizers silent. "
-                     "Non-trivial = >=3 connections, >=1 abnormal end or junk input, and >=1 routed request (timer) existed; distinct = scenario hash. "
+                     "80 calls to one owner so that its routing table overflows; Non-trivial = >=3 connections, >=1 abnormal end or junk input, and >=1 routed request (timer) existed; distinct = scenario hash. "
                      "In addition 2 (quick) / 4 (thorough) coverage-guided libFuzzer workers (fuzz/dfuzz.cpp, the daemon in-process) apply the same baseline, "
                      "exit and hygiene oracles to byte-level generated sessions."),
     "C05": scen("c05", ["default"],
@@ -107,7 +107,7 @@ PROPS = {
                      "owner of routed requests, and then end: EOF, hang-up or reset, alone or in the same event batch as other traffic, after a truncated "
                      "length prefix / message / WebSocket frame, or dropped by the daemon for invalid JSON, an over-long message or a WebSocket protocol "
                      "violation; the other peers' transcripts are compared with the reference model (remove events, shutdown errors, nothing else), the "
-                     "descriptor-hygiene monitor and the sanitizers watch the released connection. Non-trivial = the ending peer owned an element with "
+                     "descriptor-hygiene monitor and the sanitizers watch the released connection. peers with unsent buffered output (write buffer filled, then one more response or a pong that cannot be queued); Non-trivial = the ending peer owned an element with "
                      "effects, or had a routed request in either role; in addition 2 (quick) / 3 (thorough) coverage-guided libFuzzer workers (fuzz/dfuzz.cpp, mode model: 5-byte records decoded into model-decidable operations with joins, same oracles, daemon in-process); distinct = scenario hash."),
     "C11": scen("c11", ["default"], level="fault_enumeration",
                 quick=dict(cases=900, size=60), thorough=dict(cases=30000, size=100, budget_s=1500),
@@ -137,7 +137,7 @@ PROPS = {
                      "users) / fetch / unfetch / get / set / call / reply on raw, local-socket and WebSocket connections from loopback and remote v4-mapped/v6 "
                      "origins; allocator fill byte drawn from {00,FF,BE,55,01,80}; in the local variant add must be accepted exactly from loopback and local-"
                      "socket origins. Oracle: the group-intersection reference model (responses, notifications, get results, routed delivery) plus a scan of every "
-                     "byte sent and every log line for each password used (right or attempted). Non-trivial = credential file with >=2 users, >=1 successful "
+                     "byte sent and every log line for each password used (right or attempted). credential-carrying messages that are not valid JSON (cut after the password, stray characters); Non-trivial = credential file with >=2 users, >=1 successful "
                      "authenticate, >=1 element invisible to an authenticated peer or a denied set/call, and >=1 request by an unauthenticated peer (default); "
                      "adds from both local and remote origins (local variant); distinct = scenario hash."),
     "C19": dict(module=True, engine="module-pbt", driver="c19", variants=["default"], level="exploration", kinds=["asan"],
@@ -157,7 +157,7 @@ PROPS = {
                      "choosable (RFC 7692 7.1), values 8-15 and not above the offer, no duplicates; every uncorrupted client message reaches the application "
                      "callback unchanged exactly once; every server frame inflates (system zlib, negotiated window, context takeover as agreed) to the message "
                      "sent; corrupt streams cause no sanitizer report; no accounted memory and no LeakSanitizer leak remains. Each case runs in a forked child "
-                     "under ASan+UBSan+LSan. Non-trivial = extension accepted and a non-empty or fragmented or corrupted message was exchanged; distinct = case hash.",
+                     "under ASan+UBSan+LSan. fragment sizes include empty frames; messages abandoned half way; exchanges that fail after the extension offer was read (leak check on the refusal path); Non-trivial = extension accepted and a non-empty or fragmented or corrupted message was exchanged; distinct = case hash.",
                 technique="rapidcheck differential testing against system zlib as independent peer, RFC 7692 legality predicate, sanitizers",
                 level_text="Sampling of offers, payloads, fragmentations and corruptions against an independent codec; no exhaustive sub-domain.",
                 level_note="Trusts system zlib 1.2.13, the harness frame codec and its reading of RFC 7692 7.1; the daemon itself runs compression level 0, so this is a module-level property."),
@@ -170,7 +170,7 @@ PROPS = {
                      "at the end a fresh connection tries the password in force and the original one for every user. The simulated file system records the "
                      "durable image of the credential file after every file-system call (crash point); every distinct image is loaded by a fresh daemon, "
                      "which must start and honour exactly the old or exactly the new credential set. The authorisation model decides every response; a refused "
-                     "change must have no effect in memory and on disk. evaluations counts histories plus image probes. Non-trivial = at least one password "
+                     "change must have no effect in memory and on disk. evaluations counts histories plus image probes. user names that are prefixes of each other; Non-trivial = at least one password "
                      "change was carried out and at least one durable image was probed; distinct = scenario hash."),
     "C09": scen("c09", ["default"],
                 quick=dict(cases=450, size=60), thorough=dict(cases=12000, size=100, budget_s=1500),
@@ -182,7 +182,7 @@ PROPS = {
                      "seven junk patterns written into the unused tail of the read buffer after every short read. Oracles: all schedules give identical per-"
                      "connection transcripts and close decisions (routed ids renamed by order of appearance), and each execution also agrees with the reference "
                      "model (zero length skipped, over-long length ends the connection, incomplete JSON text rejected). evaluations counts executions (base + "
-                     "variants). Non-trivial = at least one alternative schedule differs from the base and >=3 messages were sent; distinct = scenario hash."),
+                     "variants). a further schedule dimension regroups consecutive messages (of distinct connections, or pipelined on one connection) into one readiness batch; Non-trivial = at least one alternative schedule differs from the base and >=3 messages were sent; distinct = scenario hash."),
     "C10": scen("c10", ["default", "tiny"], level="fault_enumeration",
                 quick=dict(cases=1500, size=60), thorough=dict(cases=40000, size=120, budget_s=1500),
                 rule="rapidcheck-generated sessions in which a publisher's changes fan out to 6+ subscriptions on a raw and a WebSocket reader (plus get/info/"
@@ -192,7 +192,7 @@ PROPS = {
                      "are read off the buffers it passes to writev (pending bytes first, new frame after them); the byte stream the kernel accepted must be the "
                      "in-order concatenation of whole generated frames - a frame may be missing only as a whole - optionally followed by a proper prefix of a later "
                      "frame when the connection was closed afterwards or bytes are still queued; at most 64 writev calls per connection and loop iteration; no "
-                     "I/O on a blocking descriptor. Non-trivial = some write accepted a proper prefix, a later drain happened and >=10 frames were generated; "
+                     "I/O on a blocking descriptor. responses larger than the write buffer inside a batch, pings on blocked WebSocket readers; additional oracles: nothing queued once the socket is writable and the daemon idle, and no response lost on a connection that stays open (gap oracle); Non-trivial = some write accepted a proper prefix, a later drain happened and >=10 frames were generated; "
                      "distinct = scenario hash."),
     "C12": scen("c12", ["default"],
                 quick=dict(cases=1500, size=60), thorough=dict(cases=40000, size=100, budget_s=1500),
@@ -204,7 +204,7 @@ PROPS = {
                      "the buffer, ordinary add/fetch/change/get traffic, random read chunking and split deliveries, random event order. Oracles: 101 with the "
                      "accept digest computed by the harness' own SHA-1/base64, protocol and upgrade headers; server frames unmasked/FIN/RSV0/minimal length/"
                      "opcode text|pong|close; pong payload == ping payload in order; every violation answered by a close frame of a status RFC 6455 assigns to it "
-                     "and the connection ends; JSON-RPC over WebSocket and over raw agree with one shared reference model. Non-trivial = handshake succeeded and "
+                     "and the connection ends; JSON-RPC over WebSocket and over raw agree with one shared reference model. sub-protocol offers with neighbours of every length, other case, odd spacing and a second header line; Non-trivial = handshake succeeded and "
                      "at least one frame other than a plain text frame was judged; distinct = scenario hash."),
     "C13": scen("c13", ["default"],
                 quick=dict(cases=1500, size=60), thorough=dict(cases=40000, size=100, budget_s=1500),
